@@ -532,6 +532,12 @@ def impl_or_err(fn):
 
 
 # ----------------------------------------------------------------------------- correspondence
+def translate(ctx):
+    """regenerate lean/QGen/C07.lean from the current source (c07_translate.py); QProps proves model = generated"""
+    import c07_translate
+    return c07_translate.translate()
+
+
 def correspondence(ctx):
     drv = Driver("C07")
     pend = []
@@ -848,7 +854,7 @@ def oracle_embed(ctx, volume=1):
 
 PARTIAL = [
     {"theorem": "product_statistics for MProcess⊗MProcess", "missing": "false on the current tree (D7b open: mprocess_product_layout_fails); POVM layout proved for the raw list (povm_product_raw_layout), not through the outcome permutation"},
-    {"theorem": "embed_physical / embed_statistics", "missing": "block structure proved as finite tables for 1 and 2 qutrits (embed_one_block, embed_two_block); PSD/TP preservation and the Kraus round trip of gates/m-processes are checked by the oracle only"},
+    {"theorem": "embedding for >= 3 qutrits", "missing": "embedding = V M V^H + coeff (1 - V V^H) is proved for every isometric relabelling (embed_state_physical, embed_povm_physical, embed_kraus_tp, embed_statistics); that the coded index permutation IS such a relabelling is proved for 1 and 2 qutrits (embedEntry_one_eq, embedEntry_two_eq, finite), not for general num_qutrits; the Kraus round trip to_kraus_matrices / to_hs_from_kraus_matrices around it is C02's"},
 ]
 
 
